@@ -227,7 +227,7 @@ def sweep(rep, rng, reps, deadline):
 
 
 def run(rep: Report):
-    sweep(rep, Rng(rep.seed * 1000003 + 11), 4 if rep.tier == "quick" else 40, time.time() + budget(rep.tier, 60, 800))
+    sweep(rep, Rng(rep.seed * 1000003 + 11), 12 if rep.tier == "quick" else 40, time.time() + budget(rep.tier, 60, 800))
 
 
 def search(rep: Report):
